@@ -22,7 +22,7 @@ LEVEL_TEXT = ("Clouds of 10^4-10^6 particles are stepped 1-50 times by the real 
 LEVEL_NOTE = "Restated as bounded statistics: moments and independence only (no normality test). A 6-sigma band with 1e5 particles is +-2.7 % on the variance: false alarms at the 1e-8 level per test, factor-2/unit errors far outside."
 RULE = ("case = (D, Dz, dt, dx, dy, steps, cloud size, seed). Non-trivial: D > 0 or Dz > 0 with at least 2 steps (independence across steps observable); distinct by parameters.")
 MANDATORY = ["horizontal_variance_tests", "vertical_variance_tests", "mean_tests", "cross_covariance_tests", "lag1_tests", "neighbour_tests", "growth_tests",
-             "zero_diffusion_deterministic", "anisotropic_grid", "rng_seeded_by_harness", "e2e_variance_tests"]
+             "zero_diffusion_deterministic", "anisotropic_grid", "rng_seeded_by_harness", "e2e_variance_tests", "horizontal_vertical_covariance_tests"]
 ASSUMPTIONS = ["still water, uniform metric, no boundaries reached (grid and water column far larger than the cloud)"]
 TIMEOUT = {"quick": 900, "thorough": 3400}
 KSIG = 6.0
@@ -206,9 +206,11 @@ def run_case(case: dict[str, Any], wd: Path) -> dict[str, Any]:
                 if abs(v - sz2) > band_var(sz2, n):
                     V.append(C.viol(f"step {s}: variance of the vertical displacement = {v:.6g} m^2, configured 2*Dz*dt = {sz2:.6g} (ratio {v / sz2:.4f})", **desc))
                 if D > 0:
-                    r = float(np.corrcoef(dX, dZ)[0, 1])
-                    if abs(r) > KSIG / np.sqrt(n):
-                        V.append(C.viol(f"step {s}: horizontal and vertical displacements correlated (r = {r:.4f})", **desc))
+                    for hname, dh in (("X", dX), ("Y", dY)):
+                        r = float(np.corrcoef(dh, dZ)[0, 1])
+                        bump("horizontal_vertical_covariance_tests")
+                        if abs(r) > KSIG / np.sqrt(n):
+                            V.append(C.viol(f"step {s}: {hname} and vertical displacements correlated (r = {r:.4f})", **desc))
             elif np.any(dZ != 0):
                 V.append(C.viol(f"step {s}: depth changed although Dz = 0 and vertical advection is off", **desc))
             prev = (dX, dY)
